@@ -397,7 +397,10 @@ func (r *vRun) mutate(m *vMsg, b []byte, byMsg map[*vMsg][][]byte, depth int) ([
 }
 
 // offer b to the generated Unmarshal of message m; record the case and run the oracle
-func (r *vRun) decodeCase(kind int, m *vMsg, b []byte, what string, unmarshal func([]byte) (reflect.Value, error)) {
+// again: the decode used for the second round of the fixed-point check (nil: the generated Unmarshal);
+// for a public decode path it is that same path, so that whatever the path does after Unmarshal
+// (migration of deprecated fields) is part of the fixed point
+func (r *vRun) decodeCase(kind int, m *vMsg, b []byte, what string, unmarshal func([]byte) (reflect.Value, error), again func([]byte) (reflect.Value, error)) {
 	term0 := vCaseTerm(kind, m.id, "VNone", b, 0)
 	var v reflect.Value
 	var err error
@@ -424,6 +427,14 @@ func (r *vRun) decodeCase(kind int, m *vMsg, b []byte, what string, unmarshal fu
 	if !vGuard(r.out, "re-encode("+what+")", term, func() {
 		b1, e1 = pb.Marshal()
 		sz = pb.Size()
+		if again != nil {
+			var v2 reflect.Value
+			v2, e2 = again(b1)
+			if e2 == nil {
+				b2, e3 = v2.Addr().Interface().(vPB).Marshal()
+			}
+			return
+		}
 		p2 := reflect.New(m.typ)
 		e2 = p2.Interface().(vPB).Unmarshal(b1)
 		if e2 == nil {
@@ -463,7 +474,7 @@ func (r *vRun) byteCases(pool [][2]interface{}) {
 				what = "multi"
 			}
 		}
-		r.decodeCase(1, m, nb, what, vUnmarshalInto(m.typ))
+		r.decodeCase(1, m, nb, what, vUnmarshalInto(m.typ), nil)
 	}
 
 	// the decode paths of the public API on payloads that still use the deprecated scope fields
@@ -475,10 +486,14 @@ func (r *vRun) byteCases(pool [][2]interface{}) {
 		for i := 0; i < nd; i++ {
 			o := &vGenOpt{rng: r.rng, budget: 6 + r.rng.Intn(10), deprecated: true, hist: r.hist}
 			v := r.s.gen(o, m, 0)
+			if i%2 == 0 {
+				r.s.legacySender(m, v) // what the migration exists for: only the deprecated field is used
+			}
 			b, err := v.Addr().Interface().(vPB).Marshal()
 			if err != nil {
 				continue
 			}
+			r.hist["migrate_relevant_resources_"+sg.name] += r.s.migrateRelevant(m, r.s.tree(m, v))
 			if r.rng.Intn(3) == 0 {
 				b, _ = r.mutate(m, b, byMsg, 0)
 			}
@@ -491,12 +506,110 @@ func (r *vRun) byteCases(pool [][2]interface{}) {
 					return reflect.ValueOf(x).Elem(), nil
 				}
 			}
-			r.decodeCase(1, m, b, sg.name+"-ProtoUnmarshaler", wrap(sg.unmarshalPB))
+			r.decodeCase(1, m, b, sg.name+"-ProtoUnmarshaler", wrap(sg.unmarshalPB), wrap(sg.unmarshalPB))
 			kind := 1
 			if sg.reqMigrates {
 				kind = 2
 			}
-			r.decodeCase(kind, m, b, sg.name+"-ExportRequest.UnmarshalProto", wrap(sg.reqUnmarshalPB))
+			r.decodeCase(kind, m, b, sg.name+"-ExportRequest.UnmarshalProto", wrap(sg.reqUnmarshalPB), wrap(sg.reqUnmarshalPB))
+			// the mechanism itself: after a migrating decode path no deprecated scope field is left
+			if sg.reqMigrates {
+				if x, err := sg.reqUnmarshalPB(b); err == nil {
+					t := r.s.tree(m, reflect.ValueOf(x).Elem())
+					if n := r.s.deprecatedLeft(m, t); n > 0 {
+						r.out.Oracle("migrate", vCaseTerm(2, m.id, "VSome ("+t.String()+")", b, 0), fmt.Sprintf("%s: %d deprecated scope field(s) still set after ExportRequest.UnmarshalProto (otlp.Migrate must move them to scope_* and clear them)", sg.name, n))
+					}
+					r.hist["migrate_checked"]++
+				}
+			}
+		}
+	}
+}
+
+// number of non-empty deprecated (field number 1000) slots anywhere in a tree of message m
+func (s *vSchema) deprecatedLeft(m *vMsg, t *vT) int {
+	n := 0
+	for i, f := range m.fields {
+		c := t.kids[i]
+		if f.num == 1000 && len(c.kids) > 0 {
+			n++
+		}
+		if f.ty != vtMsg {
+			continue
+		}
+		switch f.card {
+		case vcOpt:
+			n += s.deprecatedLeft(f.msg, c)
+		case vcOneof:
+			if c.k == 's' && c.kids[0].k == 'm' {
+				n += s.deprecatedLeft(f.msg, c.kids[0])
+			}
+		case vcRep:
+			for _, e := range c.kids {
+				n += s.deprecatedLeft(f.msg, e)
+			}
+		}
+	}
+	return n
+}
+
+// number of resources of a request tree in which the migration has something to do: scope_* (field 2)
+// empty and the deprecated field (1000) set
+func (s *vSchema) migrateRelevant(m *vMsg, t *vT) int {
+	n := 0
+	if len(m.fields) == 0 || m.fields[0].ty != vtMsg || m.fields[0].card != vcRep {
+		return 0
+	}
+	rm := m.fields[0].msg
+	i2, i1000 := -1, -1
+	for i, f := range rm.fields {
+		if f.num == 2 {
+			i2 = i
+		}
+		if f.num == 1000 {
+			i1000 = i
+		}
+	}
+	if i2 < 0 || i1000 < 0 {
+		return 0
+	}
+	for _, e := range t.kids[0].kids {
+		if len(e.kids[i2].kids) == 0 && len(e.kids[i1000].kids) > 0 {
+			n++
+		}
+	}
+	return n
+}
+
+// turn a request into what a legacy sender produces: in every resource the scope_* field (2) is moved
+// to the deprecated field (1000) when that one exists and is empty
+func (s *vSchema) legacySender(m *vMsg, v reflect.Value) {
+	if len(m.fields) == 0 || m.fields[0].ty != vtMsg || m.fields[0].card != vcRep {
+		return
+	}
+	rm := m.fields[0].msg
+	var f2, f1000 *vField
+	for _, f := range rm.fields {
+		if f.num == 2 {
+			f2 = f
+		}
+		if f.num == 1000 {
+			f1000 = f
+		}
+	}
+	if f2 == nil || f1000 == nil || f2.goType != f1000.goType {
+		return
+	}
+	rs := v.Field(m.fields[0].fieldIdx)
+	for i := 0; i < rs.Len(); i++ {
+		e := rs.Index(i)
+		if e.Kind() == reflect.Ptr {
+			e = e.Elem()
+		}
+		a, d := e.Field(f2.fieldIdx), e.Field(f1000.fieldIdx)
+		if a.Len() > 0 && d.Len() == 0 {
+			d.Set(a)
+			a.Set(reflect.Zero(a.Type()))
 		}
 	}
 }
